@@ -88,11 +88,11 @@ def h_spell(op, a, b, itext, unit, period, consts, mode, N):
     def body(env):
         A = env.A
         txt = 'out = ' + OPS[op] % itext
-        kind = 'offline' if mode == 'offline' else 'combined'
+        kind = 'offline' if mode == 'offline' else 'combined'      # 'combined-offline': evaluate() of the class that has both monitors
         s = dt.make_spec(kind, txt, vs, pastify=(mode == 'pastified'), unit=unit, period=tuple(period) + (0.1,),
                          consts=[tuple(c) for c in consts])
         w = dt.trace(env, vs, N)
-        if mode == 'offline':
+        if mode in ('offline', 'combined-offline'):
             got = [p[1] for p in dt.offline(s, w, N)]
             want = rho(A, f, w, N)
             env.observe('out', got)
@@ -171,6 +171,8 @@ def obligations(tier, rng):
                     if op in ('once_t', 'historically_t', 'since_t'):
                         modes.append('online')
                     modes.append('pastified')
+                    if name.startswith(('both-', 'period-', 'default-')):
+                        modes.append('combined-offline')
                     for mode in modes:
                         if quick and mode == 'pastified' and (a, b) != (1, 2):
                             continue
